@@ -229,7 +229,9 @@ def roundtrip_check(cat, outside, ntexts, rng):
 
 
 LEAN_CODECS = ['ascii', 'latin1', 'latin-1', 'iso-8859-1', 'iso8859-1', 'utf-8', 'utf8', 'UTF-8',
-               'utf-16', 'utf-16-le', 'utf-16-be']
+               'utf-16', 'utf-16-le', 'utf-16-be',
+               'utf-32', 'utf32', 'UTF-32', 'utf-32-le', 'utf-32-be', 'utf-8-sig', 'UTF-8-SIG', 'cp1252', 'windows-1252',
+               'UTF-16', 'utf_16', 'utf16', 'latin_1', 'us-ascii']
 
 
 class LeanCodecs(object):
@@ -257,7 +259,7 @@ class LeanCodecs(object):
         return ''.join(chr(c) for c in out)
 
     def cases(self, ctx, budget, rng):
-        for name in LEAN_CODECS + ['utf-32', 'nope', 'UTF8', 'Latin1']:
+        for name in LEAN_CODECS + ['utf_32', 'nope', 'UTF8', 'Latin1', 'cp-1252']:
             yield (name, 'n', None)
         for _ in range(budget):
             name = rng.choice(LEAN_CODECS)
@@ -275,7 +277,8 @@ class LeanCodecs(object):
             elif r < 0.6:
                 b = rng.choice([b'\xff\xfe', b'\xfe\xff', b'\xef\xbb\xbf', b'\xc0\x80', b'\xed\xa0\x80', b'\xf4\x90\x80\x80',
                                 b'\xf8\x88\x80\x80\x80', b'\x00\xd8', b'\x00\xd8\x00\xdc', b'\x00\xdc\x00\xd8', b'\xd8\x00\xdc\x00',
-                                b'\xe0\x80\x80', b'\xf0\x80\x80\x80', b'\x80', b'\xc2']) + b
+                                b'\xe0\x80\x80', b'\xf0\x80\x80\x80', b'\x80', b'\xc2', b'\xff\xfe\x00\x00', b'\x00\x00\xfe\xff',
+                                b'\xfe\xff\x00\x00', b'\x00\xd8\x00\x00', b'\x00\x00\x11\x00', b'\x81', b'\x8d', b'\x90', b'\x9d']) + b
             yield (name, 'd', b)
 
     def request(self, case):
@@ -350,7 +353,7 @@ def explore(ctx, escalate=False, hint=None):
         if b and canon not in ('utf-16', 'utf-32', 'utf-8-sig'):
             res['violations'].append({'what': 'codec %s emits a BOM %r but is not in the platform BOM table' % (canon, b)})
     r2 = base.explore_generic(ctx, LeanCodecs(), 60000 if thorough else (15000 if escalate else 4000),
-                              'Lean codecs (Model/Codecs.lean: ascii, latin-1, utf-8, utf-16, utf-16-le, utf-16-be under 11 '
+                              'Lean codecs (Model/Codecs.lean: ascii, latin-1, cp1252, utf-8, utf-8-sig, utf-16 / 32 with -le / -be under 25 '
                               'spellings) vs CPython on random texts / valid and damaged byte strings', chunk=4000)
     res['evaluations'] += r2['evaluations']
     res['disagreements'] += r2['disagreements']
